@@ -13,12 +13,12 @@ enum OpCode : uint16_t {
   // element -> ...
   OP_INVERSE = 0, OP_LOG, OP_COMPOSE, OP_BETWEEN, OP_RPLUS, OP_LPLUS, OP_PLUS,
   OP_RMINUS, OP_LMINUS, OP_MINUS, OP_ACT, OP_ADJ, OP_MUL, OP_ADD, OP_SUB,
-  OP_ISAPPROX, OP_EQ, OP_TRANSFORM, OP_ROTATION, OP_CASTRT, OP_COEFFS, OP_LIFT, OP_DATAPTR,
+  OP_ISAPPROX, OP_EQ, OP_TRANSFORM, OP_ROTATION, OP_CASTRT, OP_COEFFS, OP_LIFT, OP_DATAPTR, OP_ACCESSORS,
   // tangent -> ...
   OP_EXP = 30, OP_HAT, OP_RJAC, OP_LJAC, OP_RJACINV, OP_LJACINV, OP_SMALLADJ,
   OP_INNER, OP_WNORM, OP_SQWNORM, OP_BRACKET, OP_TPLUS, OP_TMINUS,
   OP_T_RPLUS_X, OP_T_LPLUS_X, OP_T_PLUS_X, OP_T_ADD_X, OP_T_ISAPPROX, OP_T_NEG, OP_T_SCALE,
-  OP_T_ADD_T, OP_T_SUB_T, OP_T_GENERATOR_M, OP_T_INNERW_M, OP_RETRACT, OP_T_CASTRT, OP_JT_MUL,
+  OP_T_ADD_T, OP_T_SUB_T, OP_T_GENERATOR_M, OP_T_INNERW_M, OP_RETRACT, OP_T_CASTRT, OP_JT_MUL, OP_T_ACCESSORS,
   // static helpers
   OP_IDENTITY = 60, OP_ZERO, OP_GENERATOR, OP_INNERWEIGHTS, OP_VEE, OP_BRACKET_S, OP_RANDOM, OP_T_RANDOM,
   // algorithms
@@ -26,10 +26,10 @@ enum OpCode : uint16_t {
   OP_DECASTELJAU, OP_SMOOTH_PHI,
   // element mutators (dst = a)
   OP_M_ASSIGN = 90, OP_M_SETIDENTITY, OP_M_SETRANDOM, OP_M_PLUSEQ, OP_M_MULEQ, OP_M_NORMALIZE,
-  OP_M_COEFFWRITE, OP_M_ALIAS, OP_M_ASSIGN_EIGEN, OP_M_MOVE_ASSIGN, OP_M_SUBVIEW_WRITE,
+  OP_M_COEFFWRITE, OP_M_ALIAS, OP_M_ASSIGN_EIGEN, OP_M_MOVE_ASSIGN, OP_M_SUBVIEW_WRITE, OP_M_SETTERS,
   // tangent mutators (dst = a)
   OP_TM_ASSIGN = 110, OP_TM_SETZERO, OP_TM_SETRANDOM, OP_TM_PLUSEQ, OP_TM_MINUSEQ, OP_TM_MULEQ,
-  OP_TM_DIVEQ, OP_TM_STREAM, OP_TM_LOG_INTO, OP_TM_ASSIGN_EIGEN, OP_TM_COEFFWRITE, OP_TM_SETVEE,
+  OP_TM_DIVEQ, OP_TM_STREAM, OP_TM_LOG_INTO, OP_TM_ASSIGN_EIGEN, OP_TM_COEFFWRITE, OP_TM_SETVEE, OP_TM_BLOCKSET,
   OP__END = 130
 };
 
